@@ -164,12 +164,16 @@ def run_quat(ctx, p):
     R0, R1 = q_to_R(q0), q_to_R(q1)
     sig = dict(api=api, shortest=shortest, start=bool(with_start), dot='neg' if dot < 0 else 'pos')
     what = lambda: '%s(q0=%s, q1=%s, shortest=%s)' % (api, q0, q1, shortest)
+    # the option as a caller may hold it: Python bool, NumPy bool (the result of a comparison), 0 / 1
+    SH = {'bool': bool, 'np.bool_': np.bool_, 'int': int}[p.get('shform', 'bool')](shortest)
+    if p.get('shform', 'bool') != 'bool':
+        sig['shform'] = p['shform']
 
     def call(s):
         if api == 'base.slerp':
-            return base.slerp(q0, q1, s, shortest=shortest)
+            return base.slerp(q0, q1, s, shortest=SH)
         a, b = sm.UnitQuaternion(q0), sm.UnitQuaternion(q1)
-        r = a.interp(s, dest=b, shortest=shortest) if with_start else b.interp(s, shortest=shortest)
+        r = a.interp(s, dest=b, shortest=SH) if with_start else b.interp(s, shortest=SH)
         return r.A
     samples = []
     for s in p['svals']:
@@ -382,7 +386,7 @@ def run(ctx):
         ws = rng.random() < 0.7
         if not ws:
             q1 = dq if rng.random() < 0.5 else -dq
-        p = dict(api=['base.slerp', 'UnitQuaternion.interp'][rng.integers(2)], q0=q0, q1=q1, shortest=bool(rng.integers(2)),
+        p = dict(api=['base.slerp', 'UnitQuaternion.interp'][rng.integers(2)], q0=q0, q1=q1, shortest=bool(rng.integers(2)), shform=['bool', 'bool', 'np.bool_', 'int'][rng.integers(4)],
                  with_start=ws, svals=svals(rng), bad_s=[BAD_S[rng.integers(len(BAD_S))]])
         if p['api'] == 'base.slerp':
             p['with_start'] = True
@@ -397,4 +401,11 @@ def run(ctx):
         R0, R1 = pair3(rng)
         k = int(rng.integers(2, 6))
         sv = sorted(float(x) for x in rng.random(k))
+        r_ = rng.random()
+        if r_ < 0.2:        # there and back, dwelling at the ends: repeated values, not monotonic
+            sv = [0.0, 0.0] + sv + [1.0, 1.0] + sv[::-1]
+        elif r_ < 0.35:     # a saturated ramp
+            sv = [float(x) for x in np.clip(np.linspace(-0.5, 1.5, k + 4), 0, 1)]
+        elif r_ < 0.5:
+            sv = [sv[0]] * 2 + sv[::-1]
         drive(RUNNERS, ctx, 'routes', dict(R0=R0, R1=R1, s=float(rng.random()), svec=sv))
